@@ -185,11 +185,17 @@ class Facts:
         if isinstance(s, (ast.Assign, ast.AugAssign, ast.AnnAssign)):
             targets = s.targets if isinstance(s, ast.Assign) else [s.target]
             for t in targets:
-                for n in ast.walk(t):
+                elts = t.elts if isinstance(t, (ast.Tuple, ast.List)) else [t]
+                for n in elts:
+                    if isinstance(n, ast.Starred):
+                        n = n.value
                     if isinstance(n, ast.Name):
                         killed.add(n.id)
                     elif isinstance(n, ast.Attribute):
                         killed.add(ast.unparse(n))
+                    elif isinstance(n, ast.Subscript):
+                        killed.add(ast.unparse(n))
+                        killed.add(ast.unparse(n.value))
         if killed:
             out = frozenset(x for x in out if not (x[0] == "cond" and _mentions(x[1], killed)))
         return out
@@ -276,8 +282,9 @@ def _mentions(text, names):
         return True
     for n in ast.walk(t):
         if isinstance(n, ast.Name) and n.id in names:
+            par_is_attr_base = False
             return True
-        if isinstance(n, ast.Attribute):
+        if isinstance(n, (ast.Attribute, ast.Subscript)):
             try:
                 if ast.unparse(n) in names:
                     return True
